@@ -71,8 +71,16 @@ type Node struct {
 	// (Purely a hint for the printer; the printer re-checks.)
 }
 
-// Item is one object constructor item.
-// KS: "ident" (bare name = literal string), "quoted" (KeyT is a template), "expr" (KeyE in parentheses).
+// Item is one object constructor item.  Key spellings (KS):
+//
+//	"ident"  a bare name: a LITERAL key (also true/false/null/if/for ...), never evaluated
+//	"raw"    KeyE written as it is (number literal, template, operator expression, call);
+//	         "quoted" is the older name for a template written this way
+//	"expr"   KeyE in parentheses: always evaluated
+//
+// Every form but "ident" is an expression: it is evaluated and converted to string.
+// The printer never writes a KeyE that would print as a bare name or traversal without
+// parentheses (that would turn it into a literal name / an ambiguous key).
 type Item struct {
 	KS   string `json:"ks"`
 	Name string `json:"name,omitempty"`
